@@ -34,7 +34,8 @@ type helixObs struct {
 }
 
 type mateObs struct {
-	Ev    string   `json:"ev"` // "mate" | "boltnut"
+	Style string   `json:"style,omitempty"` // boltnut: head / nut body style
+	Ev    string   `json:"ev"`              // "mate" | "boltnut"
 	Name  string   `json:"name"`
 	TolE  int      `json:"tole"` // micrometres taken off the external radius
 	TolI  int      `json:"toli"` // micrometres added to the internal radius
@@ -212,13 +213,13 @@ func measureMate(name string, t *sdf.ThreadParameters, tolE, tolI float64, uE, u
 	return o
 }
 
-func measureBoltNut(name string, t *sdf.ThreadParameters, tolE, tolI float64, uE, uI int, rnd *rand.Rand) mateObs {
-	o := mateObs{Ev: "boltnut", Name: name, TolE: uE, TolI: uI, Taper: t.Taper != 0}
+func measureBoltNut(name string, t *sdf.ThreadParameters, tolE, tolI float64, uE, uI int, rnd *rand.Rand, style string) mateObs {
+	o := mateObs{Ev: "boltnut", Name: name, TolE: uE, TolI: uI, Taper: t.Taper != 0, Style: style}
 	p := t.Pitch
 	hh := t.HexHeight()
 	threadLength := 2*hh + 4*p
-	bolt, err1 := obj.Bolt(&obj.BoltParms{Thread: name, Style: "hex", Tolerance: tolE, TotalLength: threadLength, ShankLength: 0})
-	nut, err2 := obj.Nut(&obj.NutParms{Thread: name, Style: "hex", Tolerance: tolI})
+	bolt, err1 := obj.Bolt(&obj.BoltParms{Thread: name, Style: style, Tolerance: tolE, TotalLength: threadLength, ShankLength: 0})
+	nut, err2 := obj.Nut(&obj.NutParms{Thread: name, Style: style, Tolerance: tolI})
 	if err1 != nil || err2 != nil || bolt == nil || nut == nil {
 		o.Err = true
 		return o
@@ -319,10 +320,12 @@ func c18Measure(args []string) error {
 				}
 			}
 			emit(measureMate(v.Name, t, tol, 0, u, 0, rnd))
-			emit(measureBoltNut(v.Name, t, tol, 0, u, 0, rnd))
+			emit(measureBoltNut(v.Name, t, tol, 0, u, 0, rnd, "hex"))
+			// every head / body style the generators offer cuts the same thread
+			emit(measureBoltNut(v.Name, t, tol, 0, u, 0, rnd, "knurl"))
 			if tm != 0 {
 				emit(measureMate(v.Name, t, 0, tol, 0, u, rnd))
-				emit(measureBoltNut(v.Name, t, 0, tol, 0, u, rnd))
+				emit(measureBoltNut(v.Name, t, 0, tol, 0, u, rnd, []string{"hex", "knurl"}[cnt%2]))
 				emit(measureMate(v.Name, t, tol, tol, u, u, rnd))
 			}
 		}
